@@ -64,6 +64,7 @@ type Contract struct {
 	MapSpecs  map[string]*Clause // assumed property of lookups in a map-typed parameter (key, value, ok)
 	LoopCand  []*Clause // candidate invariants: kept per loop only if inductive (Houdini)
 	Inline    bool
+	AssumeFacets string // facets whose clauses are assumed, not verified, for this function
 	Extern    bool // assumed contract of an external (standard library) function
 	Trusted   bool   // contract assumed, body not verified
 	Opaque    bool   // never inline; without ensures the result is havocked
@@ -96,6 +97,7 @@ type Specs struct {
 	Files     []string
 	// Tables: property -> list of function names (from "property" lines)
 	PropFuncs map[string][]string
+	Ghosts    map[string]int // ghost (uninterpreted) spec functions: name -> arity
 }
 
 func NewSpecs() *Specs {
@@ -103,8 +105,8 @@ func NewSpecs() *Specs {
 }
 
 var clauseKeywords = map[string]bool{
-	"pred": true, "func": true, "extern": true, "requires": true, "ensures": true, "preserves": true, "loop": true,
-	"funcparam": true, "mapspec": true, "inline": true, "trusted": true, "opaque": true, "noverify": true, "modifies": true, "pure": true, "arith": true, "axiom": true,
+	"pred": true, "func": true, "extern": true, "ghost": true, "iface": true, "requires": true, "ensures": true, "preserves": true, "loop": true,
+	"funcparam": true, "mapspec": true, "assumefacet": true, "inline": true, "trusted": true, "opaque": true, "noverify": true, "modifies": true, "pure": true, "arith": true, "axiom": true,
 }
 
 // LoadSpecs reads every contracts_verif.go under repo (falling back to mirror for packages lacking one).
@@ -241,6 +243,30 @@ func (S *Specs) parseFile(path string) error {
 			}
 			S.Axioms = append(S.Axioms, &Clause{Kind: "axiom", Facet: facet, Tags: tags, Label: label, E: e, Src: body, File: path, Line: rc.line})
 			cur = nil
+		case "ghost":
+			// ghost name(a, b): uninterpreted specification function over integers/pointers
+			head := strings.TrimSpace(rest)
+			op := strings.Index(head, "(")
+			if op < 0 || !strings.HasSuffix(head, ")") {
+				return fail(fmt.Errorf("ghost name(params)"))
+			}
+			n := 0
+			for _, p := range strings.Split(head[op+1:len(head)-1], ",") {
+				if strings.TrimSpace(p) != "" {
+					n++
+				}
+			}
+			if S.Ghosts == nil {
+				S.Ghosts = map[string]int{}
+			}
+			S.Ghosts[strings.TrimSpace(head[:op])] = n
+			cur = nil
+		case "iface":
+			// behavioural contract of an interface method of another package, keyed pkg.Iface.Method (e.g. io.Reader.Read);
+			// assumed for external implementations, verified for the repository's own implementations
+			name := strings.TrimSpace(rest)
+			cur = &Contract{Func: name, File: path, Line: rc.line}
+			S.Contracts[name] = cur
 		case "extern":
 			// assumed contract of a function outside the repository, keyed by its full name
 			name := strings.TrimSpace(rest)
@@ -272,6 +298,9 @@ func (S *Specs) parseFile(path string) error {
 					cur.FuncParams = map[string]FuncParam{}
 				}
 				cur.FuncParams[f[0]] = FuncParam{Like: short + "." + f[2], Recv: f[4]}
+			case "assumefacet":
+				// assumefacet F: clauses of that facet are assumed for this function (not verified); listed in the evidence
+				cur.AssumeFacets += strings.TrimSpace(rest)
 			case "mapspec":
 				// mapspec PARAM: expr over key, value, ok (and locals at the lookup)
 				k := strings.Index(rest, ":")
